@@ -65,6 +65,19 @@ func ruleWriterDiscipline(c *eng.Ctx) {
 						bad = append(bad, fmt.Sprintf("direct %s on the writer at %s", cc.Method.Name(), c.P.Pos(x.Pos())))
 						continue
 					}
+					if cc.IsInvoke() {
+						// a method of an interface of the package: every implementation is held to the same rule
+						impls := c.P.Callees(x)
+						allIn := len(impls) > 0
+						for _, g := range impls {
+							if g.Pkg != fn.Pkg {
+								allIn = false
+							}
+						}
+						if allIn {
+							continue
+						}
+					}
 					if encoders[n] {
 						continue
 					}
@@ -538,14 +551,25 @@ func ruleBatchPartition(c *eng.Ctx) {
 }
 
 func ruleBatchExporters(c *eng.Ctx, R string) {
-	// exporters: prepareChunkForExport(chunk, i) with the range index, once per element
-	for _, name := range []string{"rag.(*Exporter).exportJSONL", "rag.(*Exporter).exportJSON", "rag.(*Exporter).exportCSV"} {
-		f := c.P.Func(name)
-		if f == nil {
-			c.Undec(R, name, token.NoPos, "anchor not found")
+	// exporters: the functions of the package that take a list of chunks and call prepareChunkForExport: they call it
+	// as prepareChunkForExport(chunk, i) with the range index, once per element
+	n := 0
+	for _, f := range c.P.ModuleFuncs() {
+		if f.Pkg == nil || f.Blocks == nil || eng.ShortPath(f.Pkg.Pkg.Path()) != "rag" {
 			continue
 		}
+		var list ssa.Value
+		for _, p := range f.Params {
+			if sl, ok := p.Type().Underlying().(*types.Slice); ok && eng.TypeName(sl.Elem()) == "*rag.Chunk" {
+				list = p
+			}
+		}
 		calls := eng.CallsNamed(f, false, "rag.(*Exporter).prepareChunkForExport")
+		if list == nil || len(calls) == 0 {
+			continue
+		}
+		n++
+		name := eng.FuncName(f)
 		ok := len(calls) == 1 && eng.InLoop(calls[0].Block())
 		if ok {
 			args := calls[0].Common().Args
@@ -553,7 +577,7 @@ func ruleBatchExporters(c *eng.Ctx, R string) {
 			ld, isLd := args[1].(*ssa.UnOp)
 			okEl := false
 			if isLd {
-				if ia, ok := ld.X.(*ssa.IndexAddr); ok && ia.X == ssa.Value(f.Params[1]) && ia.Index == args[2] {
+				if ia, ok := ld.X.(*ssa.IndexAddr); ok && ia.X == list && ia.Index == args[2] {
 					okEl = true
 				}
 			}
@@ -561,6 +585,7 @@ func ruleBatchExporters(c *eng.Ctx, R string) {
 		}
 		c.Check(ok, R, name+"#one-record-per-chunk", f.Pos(), "each chunk is exported once with its own index", "chunks are not exported exactly once each with their own position (record order or count changes)")
 	}
+	c.Check(n >= 3, R, "rag#exporters", token.NoPos, fmt.Sprintf("%d functions export a list of chunks", n), fmt.Sprintf("only %d functions of package rag export a list of chunks through prepareChunkForExport, three formats (JSON Lines, JSON, CSV/TSV) were confirmed by reading", n))
 }
 
 func ruleExporterStateless(c *eng.Ctx) {
